@@ -1,0 +1,134 @@
+// Verification hooks (compiled only with `--cfg resvg_verif`). Add-only; no behaviour change.
+
+//! Public wrappers around private per-pixel and geometry functions of the filter module.
+
+pub use rgb::RGBA8;
+
+use super::{ImageRef, ImageRefMut};
+
+/// `multiply_alpha`.
+pub fn multiply_alpha(data: &mut [RGBA8]) {
+    super::multiply_alpha(data)
+}
+
+/// `demultiply_alpha`.
+pub fn demultiply_alpha(data: &mut [RGBA8]) {
+    super::demultiply_alpha(data)
+}
+
+/// `into_linear_rgb` (table lookup only).
+pub fn into_linear_rgb(data: &mut [RGBA8]) {
+    super::into_linear_rgb(data)
+}
+
+/// `from_linear_rgb` (table lookup only).
+pub fn from_linear_rgb(data: &mut [RGBA8]) {
+    super::from_linear_rgb(data)
+}
+
+/// `PixmapExt::into_srgb` on raw pixels.
+pub fn pixmap_into_srgb(data: &mut [RGBA8]) {
+    super::demultiply_alpha(data);
+    super::from_linear_rgb(data);
+    super::multiply_alpha(data);
+}
+
+/// `PixmapExt::into_linear_rgb` on raw pixels.
+pub fn pixmap_into_linear_rgb(data: &mut [RGBA8]) {
+    super::demultiply_alpha(data);
+    super::into_linear_rgb(data);
+    super::multiply_alpha(data);
+}
+
+/// `f32_bound`.
+pub fn f32_bound(min: f32, val: f32, max: f32) -> f32 {
+    super::f32_bound(min, val, max)
+}
+
+/// `composite::arithmetic`.
+pub fn arithmetic(
+    k1: f32,
+    k2: f32,
+    k3: f32,
+    k4: f32,
+    w: u32,
+    h: u32,
+    src1: &[RGBA8],
+    src2: &[RGBA8],
+    dest: &mut [RGBA8],
+) {
+    super::composite::arithmetic(
+        k1,
+        k2,
+        k3,
+        k4,
+        ImageRef::new(w, h, src1),
+        ImageRef::new(w, h, src2),
+        ImageRefMut::new(w, h, dest),
+    )
+}
+
+/// `component_transfer::apply`.
+pub fn component_transfer(fe: &usvg::filter::ComponentTransfer, w: u32, h: u32, data: &mut [RGBA8]) {
+    super::component_transfer::apply(fe, ImageRefMut::new(w, h, data))
+}
+
+/// `color_matrix::apply`.
+pub fn color_matrix(kind: &usvg::filter::ColorMatrixKind, w: u32, h: u32, data: &mut [RGBA8]) {
+    super::color_matrix::apply(kind, ImageRefMut::new(w, h, data))
+}
+
+/// `convolve_matrix::apply`.
+pub fn convolve_matrix(fe: &usvg::filter::ConvolveMatrix, w: u32, h: u32, data: &mut [RGBA8]) {
+    super::convolve_matrix::apply(fe, ImageRefMut::new(w, h, data))
+}
+
+/// `morphology::apply`.
+pub fn morphology(
+    op: usvg::filter::MorphologyOperator,
+    rx: f32,
+    ry: f32,
+    w: u32,
+    h: u32,
+    data: &mut [RGBA8],
+) {
+    super::morphology::apply(op, rx, ry, ImageRefMut::new(w, h, data))
+}
+
+/// `resolve_std_dev`.
+pub fn resolve_std_dev(std_dx: f32, std_dy: f32, ts: usvg::Transform) -> Option<(f64, f64, bool)> {
+    super::resolve_std_dev(std_dx, std_dy, ts)
+}
+
+/// `transform_light_source`.
+pub fn transform_light_source(
+    source: usvg::filter::LightSource,
+    region: tiny_skia::IntRect,
+    ts: usvg::Transform,
+) -> usvg::filter::LightSource {
+    super::transform_light_source(source, region, ts)
+}
+
+/// Name of a primitive kind (for trace lines).
+pub fn kind_name(kind: &usvg::filter::Kind) -> &'static str {
+    use usvg::filter::Kind;
+    match kind {
+        Kind::Blend(_) => "blend",
+        Kind::ColorMatrix(_) => "colormatrix",
+        Kind::ComponentTransfer(_) => "componenttransfer",
+        Kind::Composite(_) => "composite",
+        Kind::ConvolveMatrix(_) => "convolvematrix",
+        Kind::DiffuseLighting(_) => "diffuselighting",
+        Kind::DisplacementMap(_) => "displacementmap",
+        Kind::DropShadow(_) => "dropshadow",
+        Kind::Flood(_) => "flood",
+        Kind::GaussianBlur(_) => "gaussianblur",
+        Kind::Image(_) => "image",
+        Kind::Merge(_) => "merge",
+        Kind::Morphology(_) => "morphology",
+        Kind::Offset(_) => "offset",
+        Kind::SpecularLighting(_) => "specularlighting",
+        Kind::Tile(_) => "tile",
+        Kind::Turbulence(_) => "turbulence",
+    }
+}
